@@ -2,6 +2,7 @@ package rules
 
 import (
 	"fmt"
+	"go/constant"
 	"go/token"
 	"go/types"
 	"sort"
@@ -43,6 +44,10 @@ func init() {
 			{Name: "offer-filtered-before-scsv-scan", File: "bfe_tls/handshake_server.go", Old: "	// check whether chacha20-poly1305 is enabled for current connection\n	if rule != nil {\n		hs.chachaOk = rule.Chacha20\n	}\n", New: "	// check whether chacha20-poly1305 is enabled for current connection\n	if rule != nil {\n		hs.chachaOk = rule.Chacha20\n	}\n	negotiable := make([]uint16, 0, len(hs.clientHello.cipherSuites))\n	for _, id := range hs.clientHello.cipherSuites {\n		if mutualCipherSuite(c.config.cipherSuites(), id) != nil {\n			negotiable = append(negotiable, id)\n		}\n	}\n	hs.clientHello.cipherSuites = negotiable\n", Expect: "offer-writer|serverHandshakeState.readClientHello"},
 			{Name: "silent-sslv2-spec-test-rewritten", Silent: true, File: "bfe_tls/conn.go", Old: "		if cipherSpecs[i] == 0 {\n			cipher := uint16(cipherSpecs[i+1])<<8 | uint16(cipherSpecs[i+2])\n", New: "		if kind := cipherSpecs[i]; !(kind != 0) {\n			state.TlsHandshakeAcceptSslv2ClientHello.Inc(0)\n			cipher := uint16(cipherSpecs[i+2]) | uint16(cipherSpecs[i+1])<<8\n"},
 			{Name: "raw-min-version", File: "bfe_tls/common.go", Old: "	minVersion := c.minVersion()\n	maxVersion := c.maxVersion()\n", New: "	minVersion := c.MinVersion\n	maxVersion := c.maxVersion()\n", Expect: "raw-read"},
+			{Name: "silent-scsv-scan-extracted", Silent: true, File: "bfe_tls/handshake_server.go", Old: "\tfor _, id := range hs.clientHello.cipherSuites {\n\t\tif id == TLS_FALLBACK_SCSV {\n\t\t\t// The client is doing a fallback connection.\n\t\t\tif hs.clientHello.vers < c.config.maxVersion() {\n\t\t\t\tc.sendAlert(alertInappropriateFallback)\n\t\t\t\treturn false, errors.New(\"tls: client using inppropriate protocol fallback\")\n\t\t\t}\n\t\t\tbreak\n\t\t}\n\t}\n\n\tif hs.checkForResumption() {\n\t\treturn true, nil\n\t}\n\n\tvar preferenceList, supportedList []uint16\n\tif c.config.PreferServerCipherSuites {\n\t\tpreferenceList = c.config.cipherSuites()\n\t\tsupportedList = hs.clientHello.cipherSuites\n\t} else {\n\t\tpreferenceList = hs.clientHello.cipherSuites\n\t\tsupportedList = c.config.cipherSuites()\n\t}\n\n\tif c.config.PreferServerCipherSuites && len(c.config.CipherSuitesPriority) == len(preferenceList) {\n\t\t// Equivalent cipher suite negotiation\n\t\ths.suite = hs.negotiateEquivalentCipherSuites(supportedList, preferenceList)\n\t} else {\n\t\t// Normal cipher suite negotiation\n\t\tfor _, id := range preferenceList {\n\t\t\tif hs.suite, _ = c.tryCipherSuite(id, supportedList, c.vers,\n\t\t\t\ths.ellipticOk, hs.ecdsaOk, hs.chachaOk, hs.useRC4); hs.suite != nil {\n\t\t\t\tbreak\n\t\t\t}\n\t\t}\n\t}\n\n\t// no cipher suite supported by both client and server.\n\tif hs.suite == nil {\n\t\t// If client proposes ECDHE without ECC extensions, just try ECDHE cipher suite\n\t\t// and choose CurveP256 and Uncompressed point format for client.\n\t\t//\n\t\t// Note: A client that proposes ECC cipher suites may choose not to include\n\t\t// elliptic curves extension or elliptic point format extension. In this case,\n\t\t// the server is free to choose any one of the elliptic curves or point formats.\n\t\t//\n\t\t// For more information, see RFC 4492 Section 4\n\t\tellipticMayOk := hs.checkEllipticMayOk(supportedCurve, supportedPointFormat)\n\t\tif ellipticMayOk {\n\t\t\tfor _, id := range preferenceList {\n\t\t\t\tif !CheckSuiteECDHE(id) {\n\t\t\t\t\tcontinue\n\t\t\t\t}\n\t\t\t\tif hs.suite, _ = c.tryCipherSuite(id, supportedList, c.vers, true, hs.ecdsaOk, hs.chachaOk, hs.useRC4); hs.suite != nil {\n\t\t\t\t\tbreak\n\t\t\t\t}\n\t\t\t}\n\n\t\t\tif hs.suite != nil {\n\t\t\t\tstate.TlsHandshakeAcceptEcdheWithoutExt.Inc(1)\n\t\t\t\ths.clientHello.supportedCurves = append(hs.clientHello.supportedCurves, CurveP256)\n\t\t\t\ths.clientHello.supportedPoints = append(hs.clientHello.supportedPoints, pointFormatUncompressed)\n\t\t\t}\n\t\t}\n\t}\n\n\tif hs.suite == nil {\n\t\tc.sendAlert(alertHandshakeFailure)\n\t\tstate.TlsHandshakeNoSharedCipherSuite.Inc(1)\n\t\treturn false, fmt.Errorf(\"tls: no cipher suite supported by both client and server: %v\",\n\t\t\ths.clientHello.cipherSuites)\n\t}\n\n\ths.validateHttp2Accepted()\n\treturn false, nil", New: "\tif err = hs.rejectInappropriateFallback(); err != nil {\n\t\treturn false, err\n\t}\n\n\tif hs.checkForResumption() {\n\t\treturn true, nil\n\t}\n\n\tvar preferenceList, supportedList []uint16\n\tif c.config.PreferServerCipherSuites {\n\t\tpreferenceList = c.config.cipherSuites()\n\t\tsupportedList = hs.clientHello.cipherSuites\n\t} else {\n\t\tpreferenceList = hs.clientHello.cipherSuites\n\t\tsupportedList = c.config.cipherSuites()\n\t}\n\n\tif c.config.PreferServerCipherSuites && len(c.config.CipherSuitesPriority) == len(preferenceList) {\n\t\t// Equivalent cipher suite negotiation\n\t\ths.suite = hs.negotiateEquivalentCipherSuites(supportedList, preferenceList)\n\t} else {\n\t\t// Normal cipher suite negotiation\n\t\tfor _, id := range preferenceList {\n\t\t\tif hs.suite, _ = c.tryCipherSuite(id, supportedList, c.vers,\n\t\t\t\ths.ellipticOk, hs.ecdsaOk, hs.chachaOk, hs.useRC4); hs.suite != nil {\n\t\t\t\tbreak\n\t\t\t}\n\t\t}\n\t}\n\n\t// no cipher suite supported by both client and server.\n\tif hs.suite == nil {\n\t\t// If client proposes ECDHE without ECC extensions, just try ECDHE cipher suite\n\t\t// and choose CurveP256 and Uncompressed point format for client.\n\t\t//\n\t\t// Note: A client that proposes ECC cipher suites may choose not to include\n\t\t// elliptic curves extension or elliptic point format extension. In this case,\n\t\t// the server is free to choose any one of the elliptic curves or point formats.\n\t\t//\n\t\t// For more information, see RFC 4492 Section 4\n\t\tellipticMayOk := hs.checkEllipticMayOk(supportedCurve, supportedPointFormat)\n\t\tif ellipticMayOk {\n\t\t\tfor _, id := range preferenceList {\n\t\t\t\tif !CheckSuiteECDHE(id) {\n\t\t\t\t\tcontinue\n\t\t\t\t}\n\t\t\t\tif hs.suite, _ = c.tryCipherSuite(id, supportedList, c.vers, true, hs.ecdsaOk, hs.chachaOk, hs.useRC4); hs.suite != nil {\n\t\t\t\t\tbreak\n\t\t\t\t}\n\t\t\t}\n\n\t\t\tif hs.suite != nil {\n\t\t\t\tstate.TlsHandshakeAcceptEcdheWithoutExt.Inc(1)\n\t\t\t\ths.clientHello.supportedCurves = append(hs.clientHello.supportedCurves, CurveP256)\n\t\t\t\ths.clientHello.supportedPoints = append(hs.clientHello.supportedPoints, pointFormatUncompressed)\n\t\t\t}\n\t\t}\n\t}\n\n\tif hs.suite == nil {\n\t\tc.sendAlert(alertHandshakeFailure)\n\t\tstate.TlsHandshakeNoSharedCipherSuite.Inc(1)\n\t\treturn false, fmt.Errorf(\"tls: no cipher suite supported by both client and server: %v\",\n\t\t\ths.clientHello.cipherSuites)\n\t}\n\n\ths.validateHttp2Accepted()\n\treturn false, nil\n}\n\n// rejectInappropriateFallback checks whether the client signals\n// TLS_FALLBACK_SCSV while offering a version lower than the highest version\n// enabled by the server. In that case an inappropriate_fallback alert is sent\n// and an error is returned.\nfunc (hs *serverHandshakeState) rejectInappropriateFallback() error {\n\tc := hs.c\n\tfor _, id := range hs.clientHello.cipherSuites {\n\t\tif id == TLS_FALLBACK_SCSV {\n\t\t\t// The client is doing a fallback connection.\n\t\t\tif hs.clientHello.vers < c.config.maxVersion() {\n\t\t\t\tc.sendAlert(alertInappropriateFallback)\n\t\t\t\treturn errors.New(\"tls: client using inppropriate protocol fallback\")\n\t\t\t}\n\t\t\tbreak\n\t\t}\n\t}\n\treturn nil"},
+			{Name: "silent-min-version-predicate-helper-and-renamed-parameter", Silent: true, File: "bfe_tls/common.go", Old: "func (c *Config) mutualVersion(vers uint16) (uint16, bool) {\n\tminVersion := c.minVersion()\n\tmaxVersion := c.maxVersion()\n\n\tif vers < minVersion {\n\t\treturn 0, false\n\t}\n\tif vers > maxVersion {\n\t\tvers = maxVersion\n\t}\n\treturn vers, true\n}\n", New: "func (c *Config) versionEnabled(v uint16) bool {\n\treturn v >= c.minVersion()\n}\n\nfunc (c *Config) mutualVersion(peer uint16) (uint16, bool) {\n\thighest := c.maxVersion()\n\n\tif !c.versionEnabled(peer) {\n\t\treturn 0, false\n\t}\n\tchosen := peer\n\tif chosen > highest {\n\t\tchosen = highest\n\t}\n\treturn chosen, true\n}\n"},
+			{Name: "silent-grade-chain-to-switch", Silent: true, File: "bfe_tls/common.go", Old: "\tif grade == GradeA && vers < VersionTLS10 {\n\t\treturn 0, false\n\t} else if grade == GradeAPlus && vers < VersionTLS12 { // ssl version older than tls1.2 is not allowed for Grade A+\n\t\treturn 0, false\n\t}\n", New: "\tswitch grade {\n\tcase GradeAPlus:\n\t\tif !(vers >= VersionTLS12) {\n\t\t\treturn 0, false\n\t\t}\n\tcase GradeA:\n\t\tif vers < VersionTLS10 {\n\t\t\treturn 0, false\n\t\t}\n\tdefault:\n\t}\n"},
+			{Name: "silent-chacha-gate-named-boolean", Silent: true, File: "bfe_tls/handshake_server.go", Old: "\t\t\tif candidate.flags&suiteChacha20 != 0 && !chachaOk {\n\t\t\t\tcontinue\n\t\t\t}\n", New: "\t\t\tneedsChacha := candidate.flags&suiteChacha20 != 0\n\t\t\tchachaRefused := needsChacha && !chachaOk\n\t\t\tif chachaRefused == true {\n\t\t\t\tcontinue\n\t\t\t}\n"},
 			{Name: "silent-rename-and-log", Silent: true, File: "bfe_tls/common.go", Old: "	minVersion := c.minVersion()\n	maxVersion := c.maxVersion()\n\n	if vers < minVersion {\n		return 0, false\n	}\n	if vers > maxVersion {\n		vers = maxVersion\n	}\n	return vers, true", New: "	lo := c.minVersion()\n	hi := c.maxVersion()\n\n	if !(vers >= lo) {\n		return 0, false\n	}\n	if hi < vers {\n		return hi, true\n	}\n	return vers, true"},
 		},
 	})
@@ -177,7 +182,7 @@ func c41Version(c *core.Ctx) {
 	}
 
 	if mv != nil {
-		vp := tlsParam(mv, "vers")
+		vp := tlsParamAt(mv, 1) // the peer's version (by position: names are free)
 		isVers := func(v ssa.Value) bool { return tlsIsParam(v, vp) }
 		isMin := func(v ssa.Value) bool { return tlsCallOf(v, tlsPkg+".Config.minVersion") != nil }
 		isMax := func(v ssa.Value) bool { return tlsCallOf(v, tlsPkg+".Config.maxVersion") != nil }
@@ -238,7 +243,7 @@ func c41Version(c *core.Ctx) {
 	}
 
 	if cvg != nil {
-		vp, gp := tlsParam(cvg, "vers"), tlsParam(cvg, "grade")
+		vp, gp := tlsParamAt(cvg, 1), tlsParamAt(cvg, 2)
 		tls10, ok10 := tlsPkgConst(c, "VersionTLS10")
 		tls12, ok12 := tlsPkgConst(c, "VersionTLS12")
 		gradeConst := func(name string) (string, bool) {
@@ -280,6 +285,14 @@ func c41Version(c *core.Ctx) {
 							return ok && k.Value != nil && k.Value.ExactString() == g.grade
 						}
 						if op == token.NEQ && ((tlsIsParam(x, gp) && isG(y)) || (tlsIsParam(y, gp) && isG(x))) {
+							return true
+						}
+						// grade == "some other constant" (a `switch grade` arm) excludes G as well
+						isOtherK := func(v ssa.Value) bool {
+							k, ok := core.StripConv(v).(*ssa.Const)
+							return ok && k.Value != nil && k.Value.Kind() == constant.String && k.Value.ExactString() != g.grade
+						}
+						if op == token.EQL && ((tlsIsParam(x, gp) && isOtherK(y)) || (tlsIsParam(y, gp) && isOtherK(x))) {
 							return true
 						}
 						isV := func(v ssa.Value) bool { return tlsIsParam(v, vp) }
@@ -495,9 +508,11 @@ func c41TryCipherSuite(c *core.Ctx) {
 	if try == nil || csID == nil || csFlags == nil {
 		return
 	}
-	idP, supP := tlsParam(try, "id"), tlsParam(try, "supportedCipherSuites")
-	versP := tlsParam(try, "version")
-	if idP == nil || supP == nil || versP == nil {
+	// (c, id, supported, version, ellipticOk, ecdsaOk, chachaOk, useRC4) by position
+	idP, supP := tlsParamAt(try, 1), tlsParamAt(try, 2)
+	versP := tlsParamAt(try, 3)
+	tryParam := map[string]*ssa.Parameter{"ellipticOk": tlsParamAt(try, 4), "ecdsaOk": tlsParamAt(try, 5), "chachaOk": tlsParamAt(try, 6), "useRC4": tlsParamAt(try, 7)}
+	if idP == nil || supP == nil || versP == nil || len(try.Params) != 8 {
 		c.Missing(tlsPkg + ".Conn.tryCipherSuite parameters (id, supportedCipherSuites, version)")
 		return
 	}
@@ -640,10 +655,10 @@ func c41TryCipherSuite(c *core.Ctx) {
 			return nz == f.Pol, true
 		}
 		boolParam := func(f tlsFact, name string, pol bool) bool {
-			return tlsIsParam(f.V, tlsParam(try, name)) && f.Pol == pol
+			return tlsIsParam(f.V, tryParam[name]) && f.Pol == pol
 		}
 		useRC4Not := func(f tlsFact, k int64) bool {
-			return tlsHolds(f, func(v ssa.Value) bool { return tlsIsParam(v, tlsParam(try, "useRC4")) },
+			return tlsHolds(f, func(v ssa.Value) bool { return tlsIsParam(v, tryParam["useRC4"]) },
 				func(v ssa.Value) bool { n, ok := tlsConstInt(v); return ok && n == k }, token.NEQ)
 		}
 		gates := []struct {
@@ -663,7 +678,7 @@ func c41TryCipherSuite(c *core.Ctx) {
 				if !ok || (op != token.EQL) {
 					return false
 				}
-				ep := tlsParam(try, "ecdsaOk")
+				ep := tryParam["ecdsaOk"]
 				for _, pr := range [][2]ssa.Value{{x, y}, {y, x}} {
 					if nz, ok := flagTest(pr[0], consts["suiteECDSA"]); ok && nz && tlsIsParam(pr[1], ep) {
 						return true
@@ -766,7 +781,7 @@ func c41ALPN(c *core.Ctx, fns []*ssa.Function) {
 	}
 	c.Min("alpn-store", 2)
 	// mutualProtocol's non-fallback returns
-	cp, sp := tlsParam(mp, "clientProtos"), tlsParam(mp, "serverProtos")
+	cp, sp := tlsParamAt(mp, 0), tlsParamAt(mp, 1)
 	n := 0
 	for _, r := range core.Returns(mp) {
 		rv := core.RetVals(r)
@@ -794,7 +809,10 @@ func c41ALPN(c *core.Ctx, fns []*ssa.Function) {
 	c.Min("alpn-mutual", 1)
 }
 
-// (e) TLS_FALLBACK_SCSV.
+// (e) TLS_FALLBACK_SCSV. The scan may live in readClientHello or in a private
+// helper of it (readClientHello's region): the refusal is then followed through
+// the helper's error result to the caller's test of it, and "on every success
+// path" is decided at the helper's call site.
 func c41SCSV(c *core.Ctx) {
 	rch := tlsFunc(c, "serverHandshakeState.readClientHello")
 	chSuites := tlsField(c, "clientHelloMsg.cipherSuites")
@@ -802,14 +820,6 @@ func c41SCSV(c *core.Ctx) {
 	scsv, ok := tlsPkgConst(c, "TLS_FALLBACK_SCSV")
 	if rch == nil || chSuites == nil || chVers == nil || !ok {
 		return
-	}
-	isErrRet := func(in ssa.Instruction) bool {
-		r, ok := in.(*ssa.Return)
-		if !ok {
-			return false
-		}
-		rv := core.RetVals(r)
-		return len(rv) == 2 && !tlsIsNil(rv[1])
 	}
 	isOKRet := func(in ssa.Instruction) bool {
 		r, ok := in.(*ssa.Return)
@@ -819,13 +829,12 @@ func c41SCSV(c *core.Ctx) {
 		rv := core.RetVals(r)
 		return len(rv) == 2 && tlsIsNil(rv[1])
 	}
-	_ = isErrRet
 	var scans []*ssa.BinOp
 	var loads []ssa.Instruction
-	for _, in := range tlsInstrs(rch) {
+	c.P.RegionInstrs(rch, func(in ssa.Instruction) {
 		b, ok := in.(*ssa.BinOp)
-		if !ok || b.Op != token.EQL {
-			continue
+		if !ok || (b.Op != token.EQL && b.Op != token.NEQ) {
+			return
 		}
 		for _, pr := range [][2]ssa.Value{{b.X, b.Y}, {b.Y, b.X}} {
 			if k, isK := tlsConstInt(pr[1]); isK && k == scsv {
@@ -837,17 +846,24 @@ func c41SCSV(c *core.Ctx) {
 				}
 			}
 		}
-	}
-	c.Check("scsv-scan", "readClientHello", rch.Pos(), len(scans) >= 1, "no comparison of an element of clientHello.cipherSuites with TLS_FALLBACK_SCSV in readClientHello")
+	})
+	c.Check("scsv-scan", "readClientHello", rch.Pos(), len(scans) >= 1, "no comparison of an element of clientHello.cipherSuites with TLS_FALLBACK_SCSV in readClientHello (or a private helper of it)")
 	c.Min("scsv-scan", 1)
 	if len(scans) == 0 {
 		return
 	}
 	scan := scans[0]
+	sf := scan.Parent() // readClientHello or a private helper
+	if sf != rch {
+		c.Analysed(core.FuncKey(sf))
+	}
 	// the block entered when the SCSV is present
 	var hit *ssa.BasicBlock
 	if ifi, ok := scan.Block().Instrs[len(scan.Block().Instrs)-1].(*ssa.If); ok && ifi.Cond == ssa.Value(scan) {
 		hit = scan.Block().Succs[0]
+		if scan.Op == token.NEQ {
+			hit = scan.Block().Succs[1]
+		}
 	}
 	if hit == nil {
 		c.Check("scsv-bound", "readClientHello", scan.Pos(), false, "the SCSV comparison does not directly control a branch")
@@ -856,7 +872,6 @@ func c41SCSV(c *core.Ctx) {
 	// comparison clientHello.vers < X reachable from hit
 	var cmp *ssa.BinOp
 	var bound ssa.Value
-	core.ReachAvoiding(rch, hit.Instrs[0], nil, func(in ssa.Instruction) bool { return false })
 	visit := map[*ssa.BasicBlock]bool{}
 	var walk func(b *ssa.BasicBlock)
 	walk = func(b *ssa.BasicBlock) {
@@ -892,7 +907,7 @@ func c41SCSV(c *core.Ctx) {
 	}
 	c.Check("scsv-bound", "readClientHello", cmp.Pos(), tlsCallOf(bound, tlsPkg+".Config.maxVersion") != nil,
 		"the fallback test compares clientHello.vers with "+core.Render(bound)+"; expected config.maxVersion(): with MaxVersion left at its default (0) the raw field makes `vers < 0` false and every fallback is accepted")
-	// the "below" branch only reaches error returns
+	// the "below" branch only reaches refusals
 	var below *ssa.BasicBlock
 	if ifi, ok := cmp.Block().Instrs[len(cmp.Block().Instrs)-1].(*ssa.If); ok && ifi.Cond == ssa.Value(cmp) {
 		// which successor means vers < bound ?
@@ -905,28 +920,160 @@ func c41SCSV(c *core.Ctx) {
 			below = cmp.Block().Succs[1]
 		}
 	}
+	// refuses(fn, b): entering block b of fn, readClientHello cannot return
+	// success any more. In readClientHello: no success return is reachable. In
+	// a private helper: every reachable return carries a non-nil error in one
+	// result position, and at every call site that result is tested against
+	// nil with the error edge refusing in the caller.
+	var refuses func(fn *ssa.Function, b *ssa.BasicBlock, depth int) bool
+	refuses = func(fn *ssa.Function, b *ssa.BasicBlock, depth int) bool {
+		if fn == rch {
+			return !tlsBlockReaches(rch, b, isOKRet)
+		}
+		if depth > 3 {
+			return false
+		}
+		var rets []*ssa.Return
+		for _, r := range core.Returns(fn) {
+			r := r
+			if tlsBlockReaches(fn, b, func(in ssa.Instruction) bool { return in == ssa.Instruction(r) }) {
+				rets = append(rets, r)
+			}
+		}
+		res := fn.Signature.Results()
+		for i := 0; i < res.Len(); i++ {
+			if !types.Identical(res.At(i).Type(), types.Universe.Lookup("error").Type()) {
+				continue
+			}
+			always := true
+			for _, r := range rets {
+				rv := core.RetVals(r)
+				if i >= len(rv) || tlsIsNil(rv[i]) {
+					always = false
+					continue
+				}
+				if _, isMk := rv[i].(*ssa.MakeInterface); !isMk {
+					if _, isCall := rv[i].(*ssa.Call); !isCall {
+						always = false // a variable that may be nil
+					}
+				}
+			}
+			if !always {
+				continue
+			}
+			sites := c.P.CallSites(fn)
+			okSites := len(sites) > 0
+			for _, site := range sites {
+				call, isCall := site.(*ssa.Call)
+				if !isCall {
+					okSites = false
+					break
+				}
+				caller := call.Parent()
+				isErr := func(v ssa.Value) bool {
+					v = tlsStoredValue(v) // `err = helper()` with err living in memory (named result, captured)
+					if res.Len() == 1 {
+						return v == ssa.Value(call)
+					}
+					return tlsExtractOf(v, i) == call
+				}
+				tested := false
+				for _, x := range tlsInstrs(caller) {
+					ifi, isIf := x.(*ssa.If)
+					if !isIf {
+						continue
+					}
+					a, bb, op, isRel := tlsRel(tlsNorm(ifi.Cond, true))
+					if !isRel || (op != token.NEQ && op != token.EQL) || !((isErr(a) && tlsIsNil(bb)) || (isErr(bb) && tlsIsNil(a))) {
+						continue
+					}
+					errSucc := ifi.Block().Succs[0]
+					if op == token.EQL {
+						errSucc = ifi.Block().Succs[1]
+					}
+					// the test is the only way on from the call, and its error edge refuses
+					isExit := func(y ssa.Instruction) bool { return core.IsReturn(y) }
+					bypass := core.ReachAvoiding(caller, call, func(y ssa.Instruction) bool { return y == ssa.Instruction(ifi) }, isExit)
+					if bypass == nil && refuses(caller, errSucc, depth+1) {
+						tested = true
+					}
+				}
+				if !tested {
+					okSites = false
+				}
+			}
+			if okSites {
+				return true
+			}
+		}
+		return false
+	}
 	if below == nil {
 		c.Check("scsv-refuse", "readClientHello", cmp.Pos(), false, "the comparison clientHello.vers < highest version does not control a branch in the strict form")
 	} else {
-		c.Check("scsv-refuse", "readClientHello", cmp.Pos(), !tlsBlockReaches(rch, below, isOKRet),
+		c.Check("scsv-refuse", "readClientHello", cmp.Pos(), refuses(sf, below, 0),
 			"with TLS_FALLBACK_SCSV present and clientHello.vers below the server's highest version a success return is still reachable: the fallback is not refused")
 	}
 	c.Min("scsv-bound", 1)
 	c.Min("scsv-refuse", 1)
-	// the scan lies on every path to a success return
+	// the scan lies on every path to a success return. When the scan lives in
+	// a helper, the helper's call (followed outwards to readClientHello) must
+	// dominate the return and the scan must lie on every path through the helper.
+	var anchor ssa.Instruction // instruction of readClientHello that performs the scan
+	inHelperOK := true
+	if sf != rch {
+		dominatesAll := func(in ssa.Instruction, fn *ssa.Function) bool {
+			for _, r := range core.Returns(fn) {
+				if !core.Dominates(in, r) {
+					return false
+				}
+			}
+			return true
+		}
+		ok := false
+		for _, l := range loads {
+			if l.Parent() == sf && dominatesAll(l, sf) {
+				ok = true
+			}
+		}
+		if len(scan.Block().Instrs) > 0 && dominatesAll(scan.Block().Instrs[0], sf) {
+			ok = true
+		}
+		inHelperOK = ok
+		f := sf
+		for depth := 0; depth < 4 && f != rch; depth++ {
+			sites := c.P.CallSites(f)
+			if len(sites) != 1 {
+				inHelperOK = false
+				break
+			}
+			site := sites[0].(ssa.Instruction)
+			if site.Parent() != rch && !dominatesAll(site, site.Parent()) {
+				inHelperOK = false
+			}
+			anchor, f = site, site.Parent()
+		}
+		if f != rch {
+			anchor, inHelperOK = nil, false
+		}
+	}
 	for _, in := range tlsInstrs(rch) {
 		if !isOKRet(in) {
 			continue
 		}
 		r := in.(*ssa.Return)
 		ok := false
-		for _, l := range loads {
-			if core.Dominates(l, r) {
+		if sf == rch {
+			for _, l := range loads {
+				if l.Parent() == rch && core.Dominates(l, r) {
+					ok = true
+				}
+			}
+			if scan.Block().Dominates(r.Block()) {
 				ok = true
 			}
-		}
-		if scan.Block().Dominates(r.Block()) {
-			ok = true
+		} else {
+			ok = inHelperOK && anchor != nil && core.Dominates(anchor, r)
 		}
 		c.Check("scsv-on-success-path", "readClientHello:return-isResume="+core.Render(core.RetVals(r)[0]), r.Pos(), ok,
 			"readClientHello returns success on a path that never scans clientHello.cipherSuites for TLS_FALLBACK_SCSV: a fallback hello is accepted on this path whatever its version")
